@@ -8,9 +8,10 @@ use vstd::bits::*;
 verus! {
 //@ include lib/base.rs
 //@ include lib/lvr.rs
-
 //@ include lib/divspec.rs
 //@ import knuth div_nxm
+//@ import div_small div_nx1
+//@ import div_small div_nx2
 //@ extract src/algorithms/mod.rs trait DoubleWord
 pub trait DoubleWord<T>: Sized + Copy {
     fn join(high: T, low: T) -> Self;
@@ -33,24 +34,56 @@ impl DoubleWord<u64> for u128 {
 //@ import kernels low
 //@ import kernels split
 }
-// ASSUMED (label A): un-normalised n-by-1 / n-by-2 drivers (raw get_unchecked accesses; not yet under proof)
-#[verifier::external_body]
-pub fn div_nx1(limbs: &mut [u64], divisor: u64) -> (r: u64)
-    requires divisor != 0, old(limbs).len() >= 1, old(limbs)@[old(limbs).len() - 1] != 0
-    ensures final(limbs).len() == old(limbs).len(), r < divisor,
-        lvr(old(limbs)@, 0, old(limbs).len() as int) == lvr(final(limbs)@, 0, old(limbs).len() as int) * divisor as int + r as int
-{ unimplemented!() }
-#[verifier::external_body]
-pub fn div_nx2(limbs: &mut [u64], divisor: u128) -> (r: u128)
-    requires divisor as int >= B, old(limbs).len() >= 1, old(limbs)@[old(limbs).len() - 1] != 0
-    ensures final(limbs).len() == old(limbs).len(), r < divisor,
-        lvr(old(limbs)@, 0, old(limbs).len() as int) == lvr(final(limbs)@, 0, old(limbs).len() as int) * divisor as int + r as int
-{ unimplemented!() }
 
-// ASSUMED (label A) for now: the dispatcher's contract (its kernels div_nxm / div_2x1 / div_3x2 / reciprocal_2 are proved
-// in units knuth and div_small; the trimming and dispatch logic of `div` itself is not yet under proof).
-//@ extract src/algorithms/div/mod.rs fn div
-/*+*/#[verifier::external_body]/*-*/
+pub assume_specification<T: Clone> [<[T]>::fill] (s: &mut [T], value: T)
+    ensures final(s).len() == old(s).len(), forall|i: int| 0 <= i < old(s).len() ==> final(s)@[i] == value;
+
+// N14: `s.iter().rposition(|&x| x != 0)` is routed through this wrapper whose body IS that expression.
+// ASSUMED (label A, std's Iterator::rposition): last index holding a non-zero limb, or None. Kani: c14::c14_rposition_*.
+#[verifier::external_body]
+pub fn rposition_nonzero(s: &[u64]) -> (r: Option<usize>)
+    ensures (match r {
+        Some(i) => i < s.len() && s@[i as int] != 0 && (forall|j: int| i < j < s.len() ==> s@[j] == 0),
+        None => forall|j: int| 0 <= j < s.len() ==> s@[j] == 0 })
+{ s.iter().rposition(|&x| x != 0) }
+
+// a number whose top limb is non-zero is at least B^(n-1)
+pub proof fn lemma_top_nonzero(s: Seq<u64>, n: int)
+    requires 1 <= n <= s.len(), s[n - 1] != 0
+    ensures lvr(s, 0, n) >= bp(n - 1), lvr(s, 0, n) >= 1
+{
+    lemma_lvr_push(s, 0, n - 1);
+    lemma_lvr_bound(s, 0, n - 1);
+    lemma_bp_pos(n - 1);
+    assert(bp(n - 1) * s[n - 1] as int >= bp(n - 1)) by(nonlinear_arith) requires s[n - 1] as int >= 1, bp(n - 1) >= 1;
+}
+pub proof fn lemma_bp_mono(a: int, b: int)
+    requires 0 <= a <= b
+    ensures bp(a) <= bp(b)
+{
+    lemma_bp_add(a, b - a); lemma_bp_pos(b - a); lemma_bp_pos(a);
+    assert(bp(a) * bp(b - a) >= bp(a)) by(nonlinear_arith) requires bp(b - a) >= 1, bp(a) >= 1;
+}
+// full-length value of a slice whose tail beyond k is zero
+pub proof fn lemma_trim(s: Seq<u64>, k: int, n: int)
+    requires 0 <= k <= n <= s.len(), forall|j: int| k <= j < n ==> s[j] == 0
+    ensures lvr(s, 0, n) == lvr(s, 0, k)
+{
+    lemma_lvr_trailing_zeros(s, 0, k, n);
+}
+// the result of a kernel on the trimmed prefix, lifted to the full slice (tail unchanged and zero)
+pub proof fn lemma_lift_prefix(full_old: Seq<u64>, full_fin: Seq<u64>, k: int, n: int)
+    requires 0 <= k <= n, full_old.len() == n, full_fin.len() == n,
+        forall|j: int| k <= j < n ==> full_old[j] == 0,
+        forall|j: int| k <= j < n ==> full_fin[j] == full_old[j],
+    ensures lvr(full_old, 0, n) == lvr(full_old.subrange(0, k), 0, k), lvr(full_fin, 0, n) == lvr(full_fin.subrange(0, k), 0, k)
+{
+    lemma_trim(full_old, k, n); lemma_trim(full_fin, k, n);
+    lemma_lvr_shift(full_old, full_old.subrange(0, k), 0, k);
+    lemma_lvr_shift(full_fin, full_fin.subrange(0, k), 0, k);
+}
+
+//@ extract src/algorithms/div/mod.rs fn div rewrite="divisor . iter ( ) . rposition ( | & x | x != 0 )" => "rposition_nonzero ( divisor )" #1 rewrite="numerator . iter ( ) . rposition ( | & n | n != 0 )" => "rposition_nonzero ( numerator )" #1 rewrite="vassert ( divisor . last ( ) != Some ( & 0 ) ) ;" => "vassert ( divisor . len ( ) == 0 || divisor [ divisor . len ( ) - 1 ] != 0 ) ;" #1
 pub fn div(numerator: &mut [u64], divisor: &mut [u64])
     /*+*/requires lvr(old(divisor)@, 0, old(divisor).len() as int) != 0
     ensures
@@ -61,49 +94,144 @@ pub fn div(numerator: &mut [u64], divisor: &mut [u64])
                + lvr(final(divisor)@, 0, old(divisor).len() as int),
         0 <= lvr(final(divisor)@, 0, old(divisor).len() as int) < lvr(old(divisor)@, 0, old(divisor).len() as int),/*-*/
 {
-    let i = divisor
-        .iter()
-        .rposition(|&x| x != 0)
+    /*+*/let ghost dold = divisor@; let ghost dfin = final(divisor)@; let ghost ld = divisor.len() as int;
+    let ghost nold = numerator@; let ghost nfin = final(numerator)@; let ghost ln = numerator.len() as int;
+    proof {
+        axiom_slice_len_stable(divisor); axiom_slice_len_stable(numerator);
+        // a non-zero value has a non-zero limb
+        if forall|j: int| 0 <= j < ld ==> dold[j] == 0 { lemma_lvr_zero(dold, 0, ld); }
+    }/*-*/
+    let i = rposition_nonzero ( divisor )
         .expect("Divisor is zero");
+    /*+*/let ghost kd = i as int + 1;/*-*/
     let divisor = &mut divisor[..=i];
+    /*+*/let ghost d1 = divisor@;           // trimmed divisor, old contents
+    proof {
+        assert(d1 == dold.subrange(0, kd));
+        assert(final(divisor)@ == dfin.subrange(0, kd));
+        assert(forall|j: int| kd <= j < ld ==> dfin[j] == dold[j]);
+        lemma_trim(dold, kd, ld);
+        lemma_lvr_shift(dold, d1, 0, kd);
+        lemma_top_nonzero(d1, kd);
+    }
+    let ghost dd = lvr(d1, 0, kd);/*-*/     // == value of the whole divisor
     vassert (!divisor.is_empty() );
-    vassert (divisor.last() != Some(&0) );
-    let numerator = if let Some(i) = numerator.iter().rposition(|&n| n != 0) {
+    vassert ( divisor . len ( ) == 0 || divisor [ divisor . len ( ) - 1 ] != 0 ) ;
+    /*+*/let ghost kn: int = 0;/*-*/
+    let numerator = if let Some(i) = rposition_nonzero ( numerator ) {
         &mut numerator[..=i]
     } else {
         divisor.fill(0);
+        /*+*/proof {
+            // numerator is zero and stays; remainder is zero
+            assert(nfin == nold);
+            lemma_lvr_zero(nold, 0, ln);
+            assert forall|j: int| 0 <= j < ld implies dfin[j] == 0 by { if j < kd { assert(dfin.subrange(0, kd)[j] == 0); } }
+            lemma_lvr_zero(dfin, 0, ld);
+            assert(0 * lvr(dold, 0, ld) == 0) by(nonlinear_arith);
+        }/*-*/
         return;
     };
+    /*+*/let ghost kn = numerator.len() as int;
+    let ghost n1 = numerator@;
+    proof {
+        assert(n1 == nold.subrange(0, kn));
+        assert(final(numerator)@ == nfin.subrange(0, kn));
+        assert(forall|j: int| kn <= j < ln ==> nfin[j] == nold[j]);
+        lemma_trim(nold, kn, ln);
+        lemma_lvr_shift(nold, n1, 0, kn);
+        lemma_top_nonzero(n1, kn);
+    }
+    let ghost nn = lvr(n1, 0, kn);/*-*/
     vassert (!numerator.is_empty() );
     vassert (*numerator.last().unwrap() != 0 );
     if numerator.len() < divisor.len() {
+        /*+*/let ghost pfd = final(divisor)@;/*-*/
         let (remainder, padding) = divisor.split_at_mut(numerator.len());
         remainder.copy_from_slice(numerator);
         padding.fill(0);
         numerator.fill(0);
+        /*+*/proof {
+            // q = 0, r = N < B^kn <= B^(kd-1) <= D
+            let fd = pfd;
+            assert(fd.len() == kd);
+            assert(forall|j: int| 0 <= j < kn ==> fd[j] == n1[j]);
+            assert(forall|j: int| kn <= j < kd ==> fd[j] == 0);
+            assert(forall|j: int| 0 <= j < kn ==> nfin.subrange(0, kn)[j] == 0);
+            lemma_lvr_zero(nfin.subrange(0, kn), 0, kn);
+            lemma_lift_prefix(nold, nfin, kn, ln);
+            lemma_trim(fd, kn, kd);
+            lemma_lvr_ext(fd, n1, 0, kn);
+            lemma_lvr_bound(n1, 0, kn);
+            lemma_bp_mono(kn, kd - 1);
+            lemma_lift_prefix(dold, dfin, kd, ld);
+            assert(0 * lvr(dold, 0, ld) == 0) by(nonlinear_arith);
+        }/*-*/
         return;
     }
     vassert (numerator.len() >= divisor.len() );
+    /*+*/let ghost pfd = final(divisor)@; let ghost pfn = final(numerator)@;/*-*/
     if divisor.len() <= 2 {
         if divisor.len() == 1 {
             if numerator.len() == 1 {
                 let q = numerator[0] / divisor[0];
                 let r = numerator[0] % divisor[0];
+                /*+*/proof {
+                    let a = n1[0] as int; let b = d1[0] as int;
+                    lemma_fundamental_div_mod(a, b); lemma_mod_bound(a, b);
+                    assert(lvr(n1, 0, 1) == a) by { assert(lvr(n1, 1, 1) == 0); assert(B * 0 == 0); }
+                    assert(lvr(d1, 0, 1) == b) by { assert(lvr(d1, 1, 1) == 0); assert(B * 0 == 0); }
+                    assert(a == (a / b) * b + a % b) by(nonlinear_arith) requires a == b * (a / b) + a % b;
+                }/*-*/
                 numerator[0] = q;
                 divisor[0] = r;
+                /*+*/proof {
+                    assert(lvr(numerator@, 0, 1) == q as int) by { assert(lvr(numerator@, 1, 1) == 0); assert(B * 0 == 0); }
+                    assert(lvr(divisor@, 0, 1) == r as int) by { assert(lvr(divisor@, 1, 1) == 0); assert(B * 0 == 0); }
+                }/*-*/
             } else {
                 divisor[0] = div_nx1(numerator, divisor[0]);
+                /*+*/proof {
+                    assert(lvr(d1, 0, 1) == d1[0] as int) by { assert(lvr(d1, 1, 1) == 0); assert(B * 0 == 0); }
+                    assert(lvr(divisor@, 0, 1) == divisor@[0] as int) by { assert(lvr(divisor@, 1, 1) == 0); assert(B * 0 == 0); }
+                }/*-*/
             }
         } else {
             let d = u128::join(divisor[1], divisor[0]);
+            /*+*/proof {
+                assert(lvr(d1, 0, 2) == d1[0] as int + B * d1[1] as int) by { assert(lvr(d1, 2, 2) == 0); assert(B * 0 == 0); assert(lvr(d1, 1, 2) == d1[1] as int); }
+                assert(d as int >= B) by(nonlinear_arith) requires d as int == d1[1] as int * B + d1[0] as int, d1[1] as int >= 1, d1[0] as int >= 0;
+            }/*-*/
             let remainder = div_nx2(numerator, d);
             divisor[0] = remainder.low();
             divisor[1] = remainder.high();
+            /*+*/proof {
+                let dv = divisor@;
+                lemma_fundamental_div_mod(remainder as int, B);
+                assert(lvr(dv, 0, 2) == dv[0] as int + B * dv[1] as int) by { assert(lvr(dv, 2, 2) == 0); assert(B * 0 == 0); assert(lvr(dv, 1, 2) == dv[1] as int); }
+                assert(lvr(dv, 0, 2) == remainder as int);
+                assert(d as int == lvr(d1, 0, 2)) by(nonlinear_arith) requires d as int == d1[1] as int * B + d1[0] as int, lvr(d1, 0, 2) == d1[0] as int + B * d1[1] as int;
+            }/*-*/
         }
     } else {
         div_nxm(numerator, divisor);
     }
+    /*+*/proof {
+        // lift from the trimmed slices to the full ones
+        assert(numerator@ == pfn); assert(divisor@ == pfd);
+        assert(nn == lvr(numerator@, 0, kn) * dd + lvr(divisor@, 0, kd));
+        assert(0 <= lvr(divisor@, 0, kd) < dd) by { lemma_lvr_bound(divisor@, 0, kd); }
+        lemma_lift_prefix(nold, nfin, kn, ln);
+        lemma_lift_prefix(dold, dfin, kd, ld);
+    }/*-*/
 }
 //@ end
+
+// A (Rust fact): a `&mut [T]` cannot change the length of the slice it points to
+#[verifier::external_body]
+pub proof fn axiom_slice_len_stable<T>(x: &mut [T])
+    ensures final(x).len() == old(x).len()
+{}
+
 } // verus!
 fn main() {}
